@@ -1,8 +1,12 @@
 (* C06_Props.v — the property theorems of C06 and nothing else.
    Each is closed by `exact <lemma>` and followed by Print Assumptions.
    parse_config is the model of parseConfig (C06_Model.v); spec_member, valid_case, regular,
-   contradictory and defaulted are the declarative specification (C06_Spec.v). *)
-From V Require Import C06_Spec C06_Proofs.
+   contradictory and defaulted are the declarative specification (C06_Spec.v).
+   run_load / parse_config_data / ensure_file_name are the model of the loader glue (Run's reading of
+   the --conf file, parseConfig's decoding step, internal.EnsureFileName; C06_Load.v); file_bytes,
+   denotes, undecodable, unreadable are its specification (C06_LoadSpec.v).  `decode` stands for
+   protoyaml's Unmarshal: the loader theorems hold for every function. *)
+From V Require Import C06_Spec C06_Proofs C06_LoadSpec C06_LoadProofs.
 Open Scope N_scope.
 
 (* The returned set is exactly: implied by the defaulted features, or matching some include
@@ -51,6 +55,61 @@ Theorem observable_faithful : forall cs cs',
   case_keys cs = case_keys cs' -> forall c, In c cs <-> In c cs'.
 Proof. exact observable_faithful_proof. Qed.
 Print Assumptions observable_faithful.
+
+(* ---- the loader: from the file named by --conf to parseConfig's result ---- *)
+
+(* The bytes handed to parseConfig are the bytes a reader of the named file gets, whatever size
+   a stat call reports for it (named pipe, process substitution, /dev/stdin: 0). *)
+Theorem config_bytes_are_file_bytes : forall decode conf fs size data,
+  conf <> [] -> fs conf = Node size data ->
+  run_load decode conf fs = parse_config_data decode conf data.
+Proof. exact config_bytes_are_file_bytes_proof. Qed.
+Print Assumptions config_bytes_are_file_bytes.
+
+(* Without --conf the empty configuration is parsed. *)
+Theorem no_conf_is_empty_config : forall decode fs,
+  run_load decode [] fs = parse_config empty_config.
+Proof. exact no_conf_is_empty_config_proof. Qed.
+Print Assumptions no_conf_is_empty_config.
+
+(* A document that the decoder rejects is an error of parseConfig, whatever the error text says
+   (in particular when it already names the file). *)
+Theorem decode_error_is_error : forall decode name data,
+  undecodable decode name data -> parse_config_data decode name data = Err.
+Proof. exact decode_error_is_error_proof. Qed.
+Print Assumptions decode_error_is_error.
+
+(* A named file that cannot be read is an error. *)
+Theorem unreadable_is_error : forall decode conf fs,
+  unreadable conf fs -> run_load decode conf fs = Err.
+Proof. exact unreadable_is_error_proof. Qed.
+Print Assumptions unreadable_is_error.
+
+(* The helper never turns an error into nil; the result names the file and keeps the message. *)
+Theorem ensure_file_name_keeps_error : forall msg filename,
+  exists m', ensure_file_name msg filename = Some m' /\ substring filename m' /\ substring msg m'.
+Proof. exact ensure_file_name_keeps_error_proof. Qed.
+Print Assumptions ensure_file_name_keeps_error.
+
+(* End to end: when the loader returns a set, it is not empty and it is exactly the set denoted by
+   the configuration that the bytes of the named file denote. *)
+Theorem load_exact : forall decode conf fs cs,
+  run_load decode conf fs = Ok cs ->
+  exists data cfg, file_bytes conf fs data /\ denotes decode conf data cfg /\
+                   cs <> [] /\ forall c, In c cs <-> spec_member cfg c.
+Proof. exact load_exact_proof. Qed.
+Print Assumptions load_exact.
+
+(* ... and it returns an error exactly when the file cannot be read, cannot be decoded, or denotes a
+   contradictory or empty configuration: nothing is replaced silently by another set. *)
+Theorem load_err_iff : forall decode conf fs,
+  run_load decode conf fs = Err <->
+  unreadable conf fs \/
+  exists data, file_bytes conf fs data /\
+    (undecodable decode conf data \/
+     exists cfg, denotes decode conf data cfg /\ (contradictory cfg \/ forall c, ~ spec_member cfg c)).
+Proof. exact load_err_iff_proof. Qed.
+Print Assumptions load_err_iff.
 
 (* ---- non-vacuity: concrete instances on both sides of the iffs ---- *)
 Definition F0 := mkFeatures [] [] [] [] [] None None None None None None None.
@@ -129,4 +188,35 @@ Example ex_small :
   | Ok cs => forallb (fun c => (c_version c <? 16) && (c_protocol c <? 16) && (c_codec c <? 16)
                                && (c_compression c <? 16) && (c_stream c <? 16)) cs = true
   | Err => False end.
+Proof. vm_compute. reflexivity. Qed.
+
+(* ---- the loader: instances ---- *)
+Definition one_case_cfg : config :=
+  mkConfig (mkFeatures [H1] [CONNECT] [JSON] [IDENTITY] [UNARY] (Some false) (Some false) None None None (Some false) (Some false)) [] [].
+Definition fs1 (o : fsobj) : bytes -> fsobj := fun p => if bytes_eqb p (bs "c.yaml") then o else Absent.
+Definition load_count (d : doc) (conf : bytes) (o : fsobj) : option nat :=
+  match run_load (decode_for d) conf (fs1 o) with Ok cs => Some (length (case_keys cs)) | Err => None end.
+
+(* a regular file and a named pipe (reported size 0) with the same contents give the same single case;
+   without --conf the same file system gives the 464 default cases *)
+Example ex_load_regular : load_count (DMsg one_case_cfg) (bs "c.yaml") (Node 1 [1]) = Some 1%nat.
+Proof. vm_compute. reflexivity. Qed.
+Example ex_load_pipe : load_count (DMsg one_case_cfg) (bs "c.yaml") (Node 0 [1]) = Some 1%nat.
+Proof. vm_compute. reflexivity. Qed.
+Example ex_load_no_conf : load_count (DMsg one_case_cfg) [] (Node 1 [1]) = Some 464%nat.
+Proof. vm_compute. reflexivity. Qed.
+(* an empty file is the empty configuration *)
+Example ex_load_empty_file : load_count DEmpty (bs "c.yaml") (Node 0 []) = Some 464%nat.
+Proof. vm_compute. reflexivity. Qed.
+(* the error side: undecodable (the message names the file already), missing, directory *)
+Example ex_load_bad : undecodable (decode_for DBad) (bs "c.yaml") [2] /\ load_count DBad (bs "c.yaml") (Node 1 [2]) = None.
+Proof. split; [split; [discriminate|eexists; reflexivity]|vm_compute; reflexivity]. Qed.
+Example ex_load_missing : unreadable (bs "c.yaml") (fs1 Absent) /\ load_count DEmpty (bs "c.yaml") Absent = None.
+Proof. split; [split; [discriminate|left; reflexivity]|vm_compute; reflexivity]. Qed.
+Example ex_load_dir : load_count DEmpty (bs "c.yaml") Directory = None.
+Proof. vm_compute. reflexivity. Qed.
+(* both branches of the helper *)
+Example ex_efn_already : ensure_file_name (bs "open c.yaml: gone") (bs "c.yaml") = Some (bs "open c.yaml: gone").
+Proof. vm_compute. reflexivity. Qed.
+Example ex_efn_wrapped : ensure_file_name (bs "gone") (bs "c.yaml") = Some (bs "c.yaml: gone").
 Proof. vm_compute. reflexivity. Qed.
